@@ -1,37 +1,141 @@
-//! Runs the production code generator (`generate_embedded`) for every flow of `hv_gen_flows` and writes one
-//! module per flow to $OUT_DIR/<name>.rs plus $OUT_DIR/all.rs declaring them.
+//! Runs the production code generator (`generate_embedded`: IR emission + `partition_graph` per location)
+//! for every generated flow of `hv_gen_flows` (blocks in the generated `gen_build.rs`). Each flow runs under
+//! `catch_unwind`; outcomes go to `$OUT_DIR/gen_status.json`, the code of the successful ones to
+//! `$OUT_DIR/<flow>.rs` (+ `all.rs`), their driver shims to `$OUT_DIR/drivers.rs`.
+//!
+//! The same executable doubles as the C42b emitter: run by hand with `HV_GEN_C42=1` (and the environment
+//! recorded in `build_info.json`) it runs every generator twice in-process and writes
+//! `$OUT_DIR/c42.json` = { flow: [fnv(text run 1), fnv(text run 2)] } plus the texts.
+use std::cell::{Cell, RefCell};
+use std::panic::{AssertUnwindSafe, catch_unwind};
+
 use hydro_lang::location::Location;
+
+thread_local! {
+    static LAST_PANIC: RefCell<String> = const { RefCell::new(String::new()) };
+}
+
+struct St {
+    out_dir: String,
+    c42: bool,
+    mods: Vec<String>,
+    drivers: String,
+    registry: Vec<String>,
+    status: serde_json::Map<String, serde_json::Value>,
+    c42_out: serde_json::Map<String, serde_json::Value>,
+}
+
+fn fnv(s: &str) -> String {
+    let mut h: u64 = 0xcbf29ce484222325;
+    for b in s.bytes() {
+        h ^= b as u64;
+        h = h.wrapping_mul(0x100000001b3);
+    }
+    format!("{h:016x}")
+}
+
+fn run_flow(st: &mut St, name: &str, driver: &str, f: impl Fn(&Cell<u32>) -> syn::File) {
+    let stage = Cell::new(0u32);
+    let once = |stage: &Cell<u32>| {
+        stage.set(0);
+        catch_unwind(AssertUnwindSafe(|| {
+            let file = f(stage);
+            stage.set(2);
+            prettyplease::unparse(&file)
+        }))
+    };
+    match once(&stage) {
+        Ok(text) => {
+            std::fs::write(format!("{}/{name}.rs", st.out_dir), &text).unwrap();
+            if st.c42 {
+                let second = match once(&stage) {
+                    Ok(t2) => t2,
+                    Err(_) => format!("<panic on second run: {}>", LAST_PANIC.with(|p| p.borrow().clone())),
+                };
+                if second != text {
+                    std::fs::write(format!("{}/{name}.second.rs", st.out_dir), &second).unwrap();
+                }
+                st.c42_out.insert(name.to_string(), serde_json::json!([fnv(&text), fnv(&second), text.len()]));
+            }
+            st.mods.push(name.to_string());
+            st.drivers.push_str(&format!("// @flow {name}\n{driver}\n"));
+            st.registry.push(name.to_string());
+            st.status.insert(
+                name.to_string(),
+                serde_json::json!({"status": "ok", "code_bytes": text.len(), "code_hash": fnv(&text)}),
+            );
+        }
+        Err(_) => {
+            let msg = LAST_PANIC.with(|p| p.borrow().clone());
+            st.status.insert(
+                name.to_string(),
+                serde_json::json!({"status": "panic", "stage": stage.get(), "message": msg}),
+            );
+            if st.c42 {
+                st.c42_out.insert(name.to_string(), serde_json::json!(["panic", msg]));
+            }
+        }
+    }
+}
+
+// defines `fn gen_blocks(st: &mut St)`: one `run_flow(st, name, driver shim, |stage| { .. })` per program
+include!("gen_build.rs");
 
 fn main() {
     println!("cargo::rerun-if-changed=build.rs");
+    println!("cargo::rerun-if-changed=gen_build.rs");
+    println!("cargo::rerun-if-changed=gen_desc.json");
     let out_dir = std::env::var("OUT_DIR").unwrap();
-    let mut mods: Vec<String> = vec![];
-    let mut emit = |name: &str, code: syn::File| {
-        std::fs::write(format!("{out_dir}/{name}.rs"), prettyplease::unparse(&code)).unwrap();
-        mods.push(name.to_string());
+    let c42 = std::env::var("HV_GEN_C42").is_ok();
+    std::panic::set_hook(Box::new(|info| {
+        let s = info.to_string();
+        LAST_PANIC.with(|p| *p.borrow_mut() = s);
+    }));
+    let mut st = St {
+        out_dir: out_dir.clone(),
+        c42,
+        mods: vec![],
+        drivers: String::new(),
+        registry: vec![],
+        status: Default::default(),
+        c42_out: Default::default(),
     };
 
-    // --- one block per flow -------------------------------------------------------------------
-    {
-        let mut flow = hydro_lang::compile::builder::FlowBuilder::new();
-        let process = flow.process::<()>();
-        hv_gen_flows::double(process.embedded_input("input")).embedded_output("output");
-        emit("double", flow.with_process(&process, "double").generate_embedded("hv_gen_flows"));
-    }
-    {
-        let mut flow = hydro_lang::compile::builder::FlowBuilder::new();
-        let process = flow.process::<()>();
-        hv_gen_flows::running_count(process.embedded_input("input")).embedded_output("output");
-        emit("running_count", flow.with_process(&process, "running_count").generate_embedded("hv_gen_flows"));
-    }
-    // -------------------------------------------------------------------------------------------
+    gen_blocks(&mut st);
 
+    let _ = std::panic::take_hook();
+    if c42 {
+        std::fs::write(format!("{out_dir}/c42.json"), serde_json::Value::Object(st.c42_out).to_string()).unwrap();
+        return;
+    }
     let mut all = String::new();
-    for m in &mods {
+    for m in &st.mods {
         all.push_str(&format!(
             "#[allow(unused_imports, unused_qualifications, missing_docs, non_snake_case, unused_variables, unused_mut, dead_code)]\npub mod {m} {{ include!(concat!(env!(\"OUT_DIR\"), \"/{m}.rs\")); }}\n"
         ));
     }
     std::fs::write(format!("{out_dir}/all.rs"), all).unwrap();
-}
+    let mut drivers = st.drivers;
+    drivers.push_str("pub fn registry() -> Vec<(&'static str, fn(&Plan) -> RunOut)> {\n    vec![\n");
+    for n in &st.registry {
+        drivers.push_str(&format!("        (\"{n}\", run_{n} as fn(&Plan) -> RunOut),\n"));
+    }
+    drivers.push_str("    ]\n}\n");
+    std::fs::write(format!("{out_dir}/drivers.rs"), drivers).unwrap();
+    std::fs::write(format!("{out_dir}/gen_status.json"), serde_json::Value::Object(st.status).to_string()).unwrap();
 
+    // what is needed to re-run this very executable by hand (C42b: three separate processes)
+    let mut env = serde_json::Map::new();
+    for (k, v) in std::env::vars() {
+        if k.starts_with("CARGO") || ["TARGET", "HOST", "PROFILE", "OPT_LEVEL", "DEBUG", "NUM_JOBS", "RUSTC", "RUSTDOC"].contains(&k.as_str()) {
+            env.insert(k, serde_json::Value::String(v));
+        }
+    }
+    let info = serde_json::json!({
+        "exe": std::env::current_exe().unwrap().to_string_lossy(),
+        "cwd": std::env::current_dir().unwrap().to_string_lossy(),
+        "out_dir": out_dir,
+        "env": env,
+    });
+    std::fs::write(format!("{out_dir}/build_info.json"), info.to_string()).unwrap();
+}
